@@ -157,7 +157,10 @@ func allPairsLaw(lo, up rune, ci int, opts int) (detail string, compared int) {
 	}
 	var spellings []string
 	for _, r := range []rune{lo, up} {
-		spellings = append(spellings, string(r), fmt.Sprintf(`\x{%X}`, r))
+		spellings = append(spellings, string(r))
+		if opts&int(regexp2.ECMAScript) == 0 {
+			spellings = append(spellings, fmt.Sprintf(`\x{%X}`, r)) // ECMAScript reads \x as two hex digits
+		}
 		if r <= 0xFFFF {
 			spellings = append(spellings, fmt.Sprintf(`\u%04X`, r))
 		}
@@ -188,7 +191,7 @@ func allPairsLaw(lo, up rune, ci int, opts int) (detail string, compared int) {
 				text = append([]rune("_z "), in...) // something to search through first
 			}
 			var ok bool
-			if len(spellings)%2 == 0 && compared%2 == 0 {
+			if compared%2 == 0 {
 				ok, err = re.MatchRunes(text)
 			} else {
 				ok, err = re.MatchString(string(text))
